@@ -1,24 +1,51 @@
 ----------------------------- MODULE SiPrintGen -----------------------------
 (* Law checking and input generation for SiPrint (property C18).              *)
-(* Inputs m * 10^e with m from a digit set and every e for which the value    *)
-(* lies in 1e-15 .. 1e21 (prettyDouble) resp. is an integer below 1e19        *)
-(* (prettyNumber): every decade, both sides of every suffix boundary.  The    *)
-(* results are specified by a law, so no expected value is emitted: the       *)
+(* prettyDouble: +/- m * 10^e with m from a digit set (incl. mantissas just   *)
+(* below / at / above the 999.95 rounding point) and every e for which the    *)
+(* magnitude lies in 1e-15 .. 1e21: every decade, both sides of every suffix  *)
+(* boundary, both signs; +0 and -0.                                           *)
+(* prettyNumber: counts over the whole size_t range as base-10^9 limbs: 0,    *)
+(* the small ones, 10^k - 1 / 10^k / 10^k + 1 for every suffix boundary, the  *)
+(* m * 10^e grid, powers of two up to SIZE_MAX.                               *)
+(* The results are specified by a law, so no expected value is emitted: the   *)
 (* driver's observations go back to TLC (C18Validate).                        *)
 EXTENDS SiPrint, TLC, Json, IOUtils, SequencesExt
 
-Mants == {1, 2, 5, 15, 999, 1001, 9999, 99994, 99996}
-Exps  == -20..21
-Inputs == {p \in Mants \X Exps : InRange(p[1], p[2])}
+Mants == {1, 2, 5, 15, 25, 999, 1001, 9999, 99994, 99995, 99996, 99994999, 99995001}
+Exps  == -24..21
+Mags  == {p \in Mants \X Exps : InRange(p[1], p[2])}
+Inputs == {Inp(n, p[1], p[2]) : n \in BOOLEAN, p \in Mags}
+Zeros  == {Inp(FALSE, 0, 0), Inp(TRUE, 0, 0)}
 
-ASSUME LawsSi == \A p \in Inputs : SiLaws(p[1], p[2])
-ASSUME EveryBand == \A i \in DOMAIN Sufs : \E p \in Inputs : BandIdx(p[1], p[2]) = i
+Nines(k) == P10(k) - 1
+Counts ==
+     {<<0, 0, c>> : c \in {0, 1, 2, 9, 10, 99, 100, 999, 1000, 1001, 999949, 999950, 999999, 1000000, 1000001,
+                           Nines(9)}}
+\cup {<<0, 1, 0>>, <<0, 1, 1>>, <<0, 2, 147483647>>, <<0, 2, 147483648>>, <<0, 4, 294967295>>, <<0, 4, 294967296>>,        \* 10^9, 10^9+1, 2^31, 2^32-1, 2^32
+      <<0, 999, Nines(9)>>, <<0, 1000, 0>>, <<0, 1000, 1>>,                                           \* around 10^12
+      <<0, 999999, Nines(9)>>, <<0, 1000000, 0>>, <<0, 1000000, 1>>,                                  \* around 10^15
+      <<0, Nines(9), Nines(9)>>, <<1, 0, 0>>, <<1, 0, 1>>,                                            \* around 10^18
+      <<0, 999949999, Nines(9)>>, <<0, 999950000, 0>>,                                                \* 999.95 P rounding point
+      <<9, 223372036, 854775807>>, <<9, 223372036, 854775808>>,                                       \* 2^63 - 1, 2^63
+      <<10, 0, 0>>, <<18, 0, 0>>, <<18, 446744073, 709551614>>, <<18, 446744073, 709551615>>}         \* 10^19 ... SIZE_MAX
+\cup {ToLimbs(p[1], p[2]) : p \in {q \in Mags : q[1] < 1000000 /\ q[2] >= 0 /\ Decade(q[1], q[2]) <= 18}}
+
+ASSUME LawsSi == \A x \in Inputs : SiLaws(x)
+ASSUME EveryBand == \A i \in DOMAIN Sufs, n \in BOOLEAN : \E x \in Inputs : BandIdx(x.m, x.e) = i /\ x.neg = n
+ASSUME CountsValid == \A L \in Counts : ValidCount(L)
+\* Lead keeps value and band: a count of at most nine digits is exact, and printing in the own band is admissible
+ASSUME LawsCount == \A L \in Counts :
+          LET x == Lead(L) IN
+          /\ (L[1] = 0 /\ L[2] = 0 => x.m = L[3] /\ x.e = 0 /\ ~x.more)
+          /\ (x.m # 0 => x.m >= 100000000 \/ x.e = 0)
+          /\ (x.m # 0 => Admissible(x, RefObs(x, OwnBand(x))) \/ Admissible(x, RefObs(x, OwnBand(x) + 1)))
+ASSUME ToLimbsRoundTrip == \A p \in {q \in Mags : q[1] < 1000000 /\ q[2] >= 0 /\ Decade(q[1], q[2]) <= 18} :
+          LET x == Lead(ToLimbs(p[1], p[2])) IN ~x.more /\ Decade(x.m, x.e) = Decade(p[1], p[2])
 
 NoExp == [ran |-> TRUE]
 Cases ==
-     {[a |-> "PrettyDouble", arg |-> [m |-> p[1], e |-> p[2]], cls |-> Class(p[1], p[2]), exp |-> NoExp] : p \in Inputs}
-\cup {[a |-> "PrettyNumber", arg |-> [m |-> p[1], e |-> p[2]], cls |-> Class(p[1], p[2]), exp |-> NoExp]
-        : p \in {q \in Inputs : IsCount(q[1], q[2])}}
+     {[a |-> "PrettyDouble", arg |-> [neg |-> x.neg, m |-> x.m, e |-> x.e], cls |-> Class(x), exp |-> NoExp] : x \in Inputs \cup Zeros}
+\cup {[a |-> "PrettyNumber", arg |-> [limbs |-> L], cls |-> Class(Lead(L)), exp |-> NoExp] : L \in Counts}
 
 ASSUME Emit == ndJsonSerialize(IOEnv.OUT, SetToSeq(Cases))
 ===============================================================================
